@@ -151,6 +151,30 @@ def check_qf(q, timeout_ms):
     return 'unknown', None, True
 
 
+def check_nnf(q, timeout_ms):
+    g = z3.Goal()
+    for a in unit_resolve(flatten(q.assumptions)):
+        g.add(a)
+    g.add(z3.Not(q.goal))
+    res = z3.Tactic('nnf')(g)
+    if len(res) != 1:
+        return 'unknown'
+    A = []
+    for f in res[0]:
+        A += conjuncts(f)
+    A = unit_resolve(A)
+    ground = [z3.simplify(a) for a in A if not z3.is_quantifier(a)]
+    quants = [a for a in A if z3.is_quantifier(a)]
+    insts = [fold(i_) for i_ in inst.instantiate(quants, ground, rounds=3)]
+    s = z3.Solver()
+    s.set('timeout', timeout_ms)
+    s.set('smt.mbqi', False)
+    for a in ground + insts:
+        s.add(a)
+    r = s.check()
+    return 'unsat' if r == z3.unsat else ('sat' if r == z3.sat else 'unknown')
+
+
 def uses_defs(es):
     for t in inst.subterms(es):
         if z3.is_app(t) and t.decl().name() in inst.DEFS:
@@ -183,6 +207,14 @@ def solve1(q, timeout_ms=10000, use_cvc5=True, full=True):
     if r2 == z3.sat:
         m2 = s.model()
         return dict(status='refuted', backend='z3', time=time.time() - t0, model=model_to_dict(m2), smt_model=str(m2)[:4000])
+    # quantifier alternation (an existential under a universal, or in the goal): negation normal form with
+    # skolemisation first, then the same instantiate-and-check
+    try:
+        rn = check_nnf(q, timeout_ms)
+    except z3.Z3Exception:
+        rn = 'unknown'
+    if rn == 'unsat':
+        return dict(status='proved', backend='z3 (nnf + instantiation)', time=time.time() - t0)
     if use_cvc5 and os.path.exists(CVC5):
         r3 = run_cvc5(s, max(5, timeout_ms // 1000))
         if r3 is not None and r3['status'] == 'proved':
